@@ -13,13 +13,13 @@ import (
 // RefT is a partial-precision Date / DateTime / Time.
 // Prec: 1=year 2=month 3=day 4=hour 5=minute 6=second (Time uses 4..6).
 type RefT struct {
-	Kind             string // "Date" | "DateTime" | "Time"
+	Kind               string // "Date" | "DateTime" | "Time"
 	Y, Mo, D, H, Mi, S int
-	Frac             string // fractional-second digits as written
-	Prec             int
-	HasOff           bool
-	Off              int // minutes east of UTC
-	OffText          string
+	Frac               string // fractional-second digits as written
+	Prec               int
+	HasOff             bool
+	Off                int // minutes east of UTC
+	OffText            string
 }
 
 func IsLeap(y int) bool { return y%4 == 0 && (y%100 != 0 || y%400 == 0) }
@@ -352,6 +352,12 @@ func tzOf(t RefT, def string) string {
 
 // ProtoDate builds a FHIR date ("2020", "2020-01", "2020-01-15").
 func ProtoDate(text string) *dtpb.Date {
+	if base, zone, secs := zoneSuffix(text); zone != "" {
+		d := ProtoDate(base)
+		d.ValueUs -= secs * 1e6
+		d.Timezone = zone
+		return d
+	}
 	t, ok := ParseRefT("Date", text)
 	if !ok {
 		panic("ProtoDate: " + text)
@@ -360,8 +366,31 @@ func ProtoDate(text string) *dtpb.Date {
 	return &dtpb.Date{ValueUs: t.EpochMicros(), Precision: p, Timezone: "Z"}
 }
 
+// zoneSuffix splits "2020-02@+10:00" into the FHIR text and the offset (seconds) of the zone the element was read in:
+// a date or partial dateTime has no offset in its text, but its proto is anchored at midnight of some zone
+func zoneSuffix(text string) (string, string, int64) {
+	i := strings.Index(text, "@")
+	if i < 0 {
+		return text, "", 0
+	}
+	z := text[i+1:]
+	var h, m int64
+	fmt.Sscanf(z[1:], "%d:%d", &h, &m)
+	secs := h*3600 + m*60
+	if z[0] == '-' {
+		secs = -secs
+	}
+	return text[:i], z, secs
+}
+
 // ProtoDateTime builds a FHIR dateTime from FHIR JSON text ("2020-01-15T10:30:15+05:30").
 func ProtoDateTime(text string) *dtpb.DateTime {
+	if base, zone, secs := zoneSuffix(text); zone != "" {
+		d := ProtoDateTime(base)
+		d.ValueUs -= secs * 1e6
+		d.Timezone = zone
+		return d
+	}
 	src := text
 	if !strings.Contains(src, "T") {
 		src += "T"
